@@ -267,6 +267,30 @@ fn judge_stream(t: &mut Tally, bytes: &[u8], src: F, docs: &[V], to: F, d: usize
 				t.capped += 1;
 			}
 		}
+		// a reader that fails exactly at a document boundary (or mid-document): whatever the verdict, no
+		// document may be silently dropped: Ok means the whole concatenation, Err means a prefix of it
+		if bytes.len() <= 40_000 {
+			let mut cuts: Vec<usize> = marks.iter().copied().filter(|&m| m <= bytes.len()).collect();
+			cuts.extend(marks.iter().filter(|&&m| m >= 2 && m <= bytes.len()).map(|m| m - 2));
+			cuts.sort_unstable();
+			cuts.dedup();
+			if cuts.len() > 24 {
+				let step = cuts.len() / 12;
+				cuts = cuts.iter().copied().take(8).chain(cuts.iter().copied().step_by(step)).chain(cuts.iter().copied().rev().take(4)).collect();
+			}
+			for k in cuts {
+				for kind in [std::io::ErrorKind::Other, std::io::ErrorKind::Interrupted] {
+					let o = crate::run::run_reader(crate::env::FailAtReader::new(bytes, k, 0).with_kind(kind), from, to);
+					t.evaluations += 1;
+					t.count("streams:reader-fault-at-boundary");
+					let good = if o.panic.is_some() { false } else if o.ok { o.out == expected } else { expected.starts_with(&o.out) || o.out.starts_with(&expected) };
+					if !good {
+						t.bad(format!("documents-dropped-under-reader-fault:{}->{}", src.name(), to.name()), stream_case(bytes, src, to, docs, "reader-fault", k, &[], from.is_none()),
+							format!("{label} from={} to={}: reader fails ({kind:?}) after {k} bytes: {} but the full concatenation has {} bytes", fname(from), to.name(), o.brief(), expected.len()));
+					}
+				}
+			}
+		}
 		t.nontrivial(fnv(&[bytes, fname(from).as_bytes(), to.name().as_bytes()]));
 	}
 }
